@@ -107,6 +107,21 @@ Record wf_reply (e : env) (f : ftree) (doc : xt) : Prop := {
       dict_get s_msgid a = Some id /\ has_listener e = true /\ dict_get id (table e) = Some (Some f) /\
       WFtop top f true ks;
   wf_root_not_reply : is_reply (ftag f) = false;
-  wf_root_plain : has_colon (ftag f) = false;
   wf_no_reply_child : find_f s_reply (fkids f) = None /\ find_f (s_base_clark ++ s_reply) (fkids f) = None
 }.
+
+(* ---- re-segmentation of character data ----
+   Two event lists are re-segmentations of each other iff they have the same canonical form: adjacent
+   character events merged, empty ones removed. *)
+Definition cons_chars (a : bytes) (l : list event) : list event :=
+  match l with
+  | Chars b :: r => Chars (a ++ b) :: r
+  | _ => match a with [] => l | _ => Chars a :: l end
+  end.
+
+Fixpoint canon (evs : list event) : list event :=
+  match evs with
+  | [] => []
+  | Chars a :: r => cons_chars a (canon r)
+  | e :: r => e :: canon r
+  end.
